@@ -289,9 +289,13 @@ class C20(Check):
     def _clean_record(self, out, key, codes, func_factory, touched):
         """sequence lengths of the clean execution for this configuration (cached per process)"""
         if key not in self._clean:
-            b, a, ev, exc, fp = self._monitored(codes, func_factory(), {'mode': 'none'})
-            # the recording run is an observed execution too: whatever happened, the environment must be as before
-            self._verdict(out, b, a, ev, touched, 'recording run %r (raised %r)' % (key, exc))
+            # recorded twice: the first (cold) run also contains import-machinery calls that later runs do not make
+            for attempt in range(2):
+                b, a, ev, exc, fp = self._monitored(codes, func_factory(), {'mode': 'none'})
+                # the recording run is an observed execution too: whatever happened, the environment must be as before
+                self._verdict(out, b, a, ev, touched, 'recording run %r (raised %r)' % (key, exc))
+                if exc is not None:
+                    break
             self._clean[key] = {'nline': len(fp.line_seq), 'ncall': len(fp.call_seq), 'calls': list(fp.call_seq), 'exc': repr(exc)}
         rec = self._clean[key]
         if rec['exc'] != 'None':
@@ -352,8 +356,6 @@ class C20(Check):
         os.makedirs(wd)
         env = {'BOSS_SPECTRO_REDUX': tree['topdir'], 'SPECTRO_MATCH': tree['match'], 'PHOTO_RESOLVE': tree['resolve'],
                'RUN2D': 'orig2d' if cfg['init'][0] else None, 'RUN1D': 'orig1d' if cfg['init'][1] else None}
-        if nat == 'redux_unset':
-            env['BOSS_SPECTRO_REDUX'] = None
 
         def factory(variant=None, subdir='clean'):
             w = os.path.join(wd, subdir)
@@ -375,6 +377,8 @@ class C20(Check):
                     out.count('index_beyond_recorded_path')
                     return
                 func = factory(nat, 'run')
+                if nat == 'redux_unset':
+                    os.environ.pop('BOSS_SPECTRO_REDUX', None)      # only for the faulted run, never for the recording run
                 before, after, events, exc, fp = self._monitored(self.ti_codes, func, fault)
                 ev = self._verdict(out, before, after, events, ['RUN2D', 'RUN1D'],
                                    'template_input(method=%s, init=%s) fault=%s' % (cfg['method'], cfg['init'], fault), fp)
